@@ -136,6 +136,18 @@ func verifVFSPut(name string, content []byte) {
 	}
 }
 func verifVFSDel(name string) { verifos.Remove(name) }
+func verifVFSLink(name string, target string) {
+	i := len(name) - 1
+	for i >= 0 && name[i] != '/' {
+		i--
+	}
+	verifos.MkdirAll(name[:i], 0o755)
+	verifos.Remove(name)
+	if err := verifos.Symlink(target, name); err != nil {
+		panic(err)
+	}
+}
+func verifVFSIsLink(name string) bool { return false } // only environment models call it
 func verifVFSList() []string { return nil } // only environment models call it, and those are not part of native runs
 func verifTask(name string, notification bool) {}
 func verifSched(explore bool)                     {}
@@ -448,6 +460,11 @@ func confirms(v *violation, res *replayResult) bool {
 	case "assert":
 		return has("VERIF-ASSERT-FAILED " + v.Class + "|" + strings.TrimPrefix(v.Msg, "assert failed: "))
 	case "panic":
+		if strings.Contains(v.Msg, "all goroutines are asleep") {
+			// a deadlock of the code under test: natively the process hangs (the test binary's own goroutines
+			// keep the runtime's detector quiet) or the runtime reports it
+			return res.TimedOut || strings.Contains(res.Output, "all goroutines are asleep")
+		}
 		return res.ExitErr && strings.Contains(res.Output, "panic:") && !strings.Contains(res.Output, "stack overflow")
 	case "race":
 		return strings.Contains(res.Output, "WARNING: DATA RACE") || strings.Contains(res.Output, "concurrent map")
